@@ -1,17 +1,16 @@
-\* C17 liveness: every well-formed client is eventually served, every session ends (weak fairness)
+\* Sensitivity: the daemon drops main's exit status while standalone reports it (F12b): Transparency is expected to be VIOLATED.
 SPECIFICATION Spec
 CONSTANTS
   N = 3
-  Suite = "c17l"
+  Suite = "c17x"
   Verify = TRUE
   CrcModel = "atomic"
   IgnoreSigpipe = TRUE
   Cap = 2
-  Buffered = FALSE
+  Buffered = TRUE
   Gaps = "overlap"
-  DropExit = FALSE
+  DropExit = TRUE
   KeepData = TRUE
   ExternalProg <- NoExternal
   Emit = FALSE
 INVARIANTS TypeOK Isolation Transparency Available
-PROPERTIES GoodServed AllEnd
